@@ -117,6 +117,25 @@ PROPS = {
         ],
         "assumptions": [],
     },
+    "C19": {
+        "required_theorems": ["c19_steps", "c19_steps_bounded", "c19_wait_input", "c19_wait_output", "c19_eof",
+                              "c19_chunk_independent"],
+        "runs": [
+            {"sub": "blocks", "quick": ["--seed", "{seed}", "--set", "arity", "--cases", 600, "--steps", 40, "--tag-heavy", 1],
+             "thorough": ["--seed", "{seed}", "--set", "arity", "--cases", 30000, "--steps", 60, "--tag-heavy", 1]},
+        ],
+        "rule": "harness-defined derive blocks (compiled against the real macro): sync with 1..3 inputs x 1..3 outputs "
+                "(output j = sum of inputs + j, so wiring order is visible), sync_tag 1x1 and 2x2 with default and into "
+                "fields; drip-feed schedules (feed 1..k, drain 0..j, output full, bursts), input streams pre-advanced to "
+                "random wrap offsets, tags clustered on first/last samples; verdict + consumed + produced of every call and the "
+                "cumulative outputs/tags compared with the Lean model. distinct = distinct request.",
+        "trusted_base": GLOBAL_TB + [
+            "the proc-macro itself is tied by behaviour of compiled blocks (no cargo expand offline); the model mirrors the "
+            "quoted work() in rustradio_macros/src/lib.rs",
+            "streams are FIFOs with capacity (C01/C02)",
+        ],
+        "assumptions": [],
+    },
 }
 
 MANIFEST_TEXT = {
@@ -189,6 +208,18 @@ MANIFEST_TEXT = {
         "design_ref": "DESIGN.md section 2, C07",
         "note": "PARTIAL on wall-clock boundedness. The MTGraph panic on block error was repaired by a fix: commit.",
         "technique": "Lean 4 proof over scripted-block runner models + call-log correspondence + cancellation replays",
+    },
+    "C19": {
+        "text": "Lean 4 theorems about syncWork, the model of the work() generated by #[derive(Block)] in sync/sync_tag mode, "
+                "quantified over every SyncSpec (any number of inputs/outputs, any stateful per-sample function): a call "
+                "processes exactly min(shortest input, smallest output space) steps on every stream, waits (need 1) on the "
+                "first empty input else the first full output in declaration order, eof() is true iff all inputs ended and "
+                "drained, and any chunking equals the one-shot loop. Tied to the real macro by compiled harness blocks of all "
+                "arities under drip-feed schedules.",
+        "design_ref": "DESIGN.md section 2, C19",
+        "note": "The macro bug found here (3+ inputs did not compile: nested zip tuples) was repaired by a fix: commit. The "
+                "constructor wiring has no model-level content and is checked by correspondence only.",
+        "technique": "Lean 4 proof about the generated work() for all arities + drip-feed correspondence on compiled blocks",
     },
 }
 
